@@ -115,7 +115,7 @@ func (env *Env) eval(x *SExpr) SV {
 		switch bt := base.typ.Underlying().(type) {
 		case *types.Slice:
 			n := cells(bt.Elem())
-			return SV{t: env.peek(base.t[0], c.I("(+ %s (* %s %d))", base.t[1], idx, n), bt.Elem()), typ: bt.Elem()}
+			return SV{t: env.peek(base.t[0], c.add(base.t[1], c.mulK(idx, n)), bt.Elem()), typ: bt.Elem()}
 		case *types.Array:
 			n := cells(bt.Elem())
 			if k, ok := new(big.Int).SetString(idx, 10); ok {
@@ -134,7 +134,7 @@ func (env *Env) eval(x *SExpr) SV {
 		case *types.Pointer:
 			if at, ok := bt.Elem().Underlying().(*types.Array); ok {
 				n := cells(at.Elem())
-				return SV{t: env.peek(base.t[0], c.I("(+ %s (* %s %d))", base.t[1], idx, n), at.Elem()), typ: at.Elem()}
+				return SV{t: env.peek(base.t[0], c.add(base.t[1], c.mulK(idx, n)), at.Elem()), typ: at.Elem()}
 			}
 		}
 		specFail("cannot index %s", describe(base))
@@ -152,7 +152,7 @@ func (env *Env) eval(x *SExpr) SV {
 			hi = env.evalInt(x.Args[2])
 		}
 		n := cells(st.Elem())
-		return SV{t: Val{base.t[0], c.I("(+ %s (* %s %d))", base.t[1], lo, n), c.I("(- %s %s)", hi, lo), c.I("(- %s %s)", base.t[3], lo)}, typ: base.typ}
+		return SV{t: Val{base.t[0], c.add(base.t[1], c.mulK(lo, n)), c.I("(- %s %s)", hi, lo), c.I("(- %s %s)", base.t[3], lo)}, typ: base.typ}
 	case "forall", "exists":
 		sub := *env
 		sub.vars = map[string]SV{}
@@ -382,7 +382,7 @@ func (env *Env) selector(x *SExpr) SV {
 			specFail("no field %s in %s", x.Name, pt.Elem())
 		}
 		off, ft := pathOffset(st, path)
-		return SV{t: env.peek(base.t[0], c.I("(+ %s %d)", base.t[1], off), ft), typ: ft}
+		return SV{t: env.peek(base.t[0], c.add(base.t[1], fmt.Sprint(off)), ft), typ: ft}
 	}
 	if st, ok := t.Underlying().(*types.Struct); ok {
 		idx, path := fieldPath(st, x.Name)
@@ -547,7 +547,7 @@ func (env *Env) call(x *SExpr) SV {
 		var parts []string
 		rep := make(sliceRep, n)
 		for k := 0; k < n; k++ {
-			b := env.peek(s.t[0], c.I("(+ %s %s %d)", s.t[1], i, k), types.Typ[types.Uint8])[0]
+			b := env.peek(s.t[0], c.add(c.add(s.t[1], i), fmt.Sprint(k)), types.Typ[types.Uint8])[0]
 			parts = append(parts, c.I("(* %s %s)", b, pow2(8*(n-1-k))))
 			rep[n-1-k] = chunk{b, 8}
 		}
@@ -597,6 +597,13 @@ func (env *Env) call(x *SExpr) SV {
 		v := arg(0)
 		if v.isBool {
 			specFail("int(bool)")
+		}
+		if w := env.unsignedWidth(v); w > 0 && c.raw == 0 {
+			if _, lit := isLit(v.t[0]); !lit {
+				if _, ok := c.reps[v.t[0]]; !ok {
+					c.reps[v.t[0]] = c.repOf(v.t[0], w) // keeps the value eligible for the bit-slice form of / % by powers of two
+				}
+			}
 		}
 		return mathInt(v.t[0])
 	case "uint8", "uint16", "uint32", "uint64", "int8", "int16", "int32", "int64", "byte":
